@@ -314,6 +314,20 @@ impl RuntimeData {
             }
         }
 
+        // mark the open upvalues: they alias live stack slots until they are closed, and the list
+        // itself is walked when a scope ends
+        let mut upvalue = self.open_upvalues;
+        while let Some(u) = unsafe { upvalue.as_mut() } {
+            upvalue = u
+                .as_upvalue()
+                .map(|u| u.next)
+                .unwrap_or(std::ptr::null_mut());
+            if !matches!(u.marker, GcMarker::Protected) {
+                u.marker = GcMarker::Gray;
+            }
+            progress_tracker.push(u);
+        }
+
         macro_rules! checked_enqueue_value {
             ($val: ident) => {
                 if let Value::Object(mut value) = $val {
